@@ -455,7 +455,10 @@ fn run_case<'a>(ctx: &'a Ctx, case: u64, acc: &'a mut Acc) -> CaseFut<'a> {
                         break;
                     }
                 }
-                acc.exhaustive = Some(acc.exhaustive.unwrap_or(true));
+                // the run as a whole also samples random sequences and connection churn: it is not an exhaustive run; the
+                // configurations whose sequences were all enumerated are listed in the evidence instead
+                acc.count("configurations_enumerated_completely", 1);
+                acc.aux(json!({"enumerated_completely": {"peers": cfg.peers, "rooms": cfg.rooms, "limit": cfg.limit, "length": len, "sequences": sequences}}));
                 acc.distinct(
                     "exhaustive_configs(peers,rooms,limit,len)",
                     format!("{},{},{},{}", cfg.peers, cfg.rooms, cfg.limit, len),
